@@ -933,6 +933,7 @@ public:
         DeclModel m;
         int ndecl = rng.range(1, 8);
         int env_bound = 0;
+        std::vector<int> bound_vars, toggle_vars; // environment variables some option / some toggle is bound to
         auto declare = [&]() {
             Op op;
             op.kind = K_DECLARE;
@@ -994,6 +995,9 @@ public:
                     {
                         mo.env = ENVS[arg % 3];
                         env_bound++;
+                        bound_vars.push_back(arg % 3);
+                        if (mo.kind == 2)
+                            toggle_vars.push_back(arg % 3);
                     }
                 }
                 else if (mod == M_DEFAULT)
@@ -1153,8 +1157,11 @@ public:
             {
                 Op op;
                 op.kind = rng.chance(2, 3) ? K_ENVSET : K_ENVUNSET;
-                op.a[0] = static_cast<int64_t>(rng.below(3));
-                op.a[1] = static_cast<int64_t>(rng.chance(1, 2) ? rng.below(6) : 6 + rng.below(4));
+                // mostly a variable that is bound, and for one a toggle reads mostly a word it understands
+                bool tv = !toggle_vars.empty() && rng.chance(1, 2);
+                op.a[0] = tv ? toggle_vars[rng.below(toggle_vars.size())] :
+                          rng.chance(2, 3) ? bound_vars[rng.below(bound_vars.size())] : static_cast<int64_t>(rng.below(3));
+                op.a[1] = static_cast<int64_t>(rng.chance(tv ? 1 : 3, 4) ? rng.below(6) : 6 + rng.below(4));
                 p.ops.push_back(op);
             }
             else if (c13 && r < 75)
